@@ -228,6 +228,9 @@ def seq(harness, variant, quick=None, thorough=None, oracles=None):
     return dict(kind='seq', harness=harness, variant=variant, quick=quick or {}, thorough=thorough or {}, oracles=oracles)
 
 
+OWN = r'^(ledger:|alloc:|asan:|crash:)'
+HB = r'^hb:'
+
 CHECKS = {
     'C01': dict(
         title='Promise -> Future delivered exactly once, intact',
@@ -265,6 +268,61 @@ CHECKS = {
                      'pipeline length bound as stated; coroutine sources are covered in C13',
                      'the reference interpreter (harness/pipeline.cpp Reference(), DESIGN.md appendix C) is the specification'],
         technique='bounded exhaustive enumeration of operation sequences against a reference model (plus exhaustive schedule enumeration for the concurrent hand-off)',
+    ),
+    'C03': dict(
+        title='Everything the library owns is released exactly once, on every path',
+        level_text='aggregate of the ownership oracles (tracked-object ledger: no read after destroy / move, no double destroy, nothing '
+                   'alive at quiescence; operator new/delete balance per execution; AddressSanitizer; crashes) over (a) every schedule '
+                   'explored by the explorer harnesses handoff (incl. dropped Promise / dropped Future / Detach), shared (copies created and '
+                   'destroyed concurrently), when_all, when_any, timed_wait, strand and pool with Stop/HardStop at any moment, coro_await '
+                   '(stopped executors, frames with live locals), wait_group (consumed futures, two-owner TimedWaiter) at their quick / thorough '
+                   'bounds, and (b) every pipeline program of the sequential enumerator (eager and lazy, length <= 2; thorough 3 reduced) x every '
+                   'finish incl. dropped handles and never-started Tasks x throwing callbacks x every rejection index of the refusing executor',
+        budget=dict(quick=420, thorough=3000),
+        runs=[seq('pipeline', 'seq17', quick=dict(shards=16, args=['--mode', 'exec', '--prop', 'C03']),
+                  thorough=dict(shards=16, args=['--mode', 'exec', '--prop', 'C03']), oracles=OWN),
+              seq('pipeline', 'seq17', quick=dict(shards=16, args=['--mode', 'lazy', '--prop', 'C03']),
+                  thorough=dict(shards=16, args=['--mode', 'lazy', '--prop', 'C03']), oracles=OWN),
+              mc('handoff', 'mc-asan', quick=dict(P=99), thorough=dict(P=99), oracles=OWN),
+              mc('shared', 'mc-asan', quick=dict(P=2, S=1, cells='set=(value|drop),keep=0'), thorough=dict(P=3, S=1), oracles=OWN),
+              mc('when_all', 'mc-asan', quick=dict(P=2), thorough=dict(P=3), oracles=OWN),
+              mc('when_any', 'mc-asan', quick=dict(P=2), thorough=dict(P=3), oracles=OWN),
+              mc('timed_wait', 'mc-asan', quick=dict(P=2, T=1, cells='after=now'), thorough=dict(P=3, T=1), oracles=OWN),
+              mc('strand', 'mc-asan', quick=dict(P=2, S=1, cells='stop=(stop|hard)'), thorough=dict(P=3, S=1), oracles=OWN),
+              mc('pool', 'mc-asan', quick=dict(P=2, cells='stop=hard|stop=stop'), thorough=dict(P=3), oracles=OWN),
+              mc('coro_await', 'mc-asan', quick=dict(P=3, S=1), thorough=dict(P=99, S=1), oracles=OWN),
+              mc('wait_group', 'mc-asan', quick=dict(P=3, S=1, T=1, cells='act=(C|DC|AC)'), thorough=dict(P=99, S=1, T=1), oracles=OWN)],
+        assumptions=['bounds of the individual harnesses (C01, C06-C11, C13, C16) and of the pipeline enumerator (C02/C12)',
+                     'objects the fiber layer itself keeps (stack cache) are outside the ledger; LeakSanitizer is replaced by the per-execution allocation balance'],
+        technique='model checking: ownership oracles evaluated on every exhaustively enumerated schedule / program of the other harnesses',
+    ),
+    'C04': dict(
+        title='No data races: what happened before fulfilment is visible after it',
+        level_text='happens-before race monitor (vector clocks from the DECLARED memory orders: release/acquire, release sequences '
+                   'through RMWs, acquire/release fences, mutex, spawn/join; every compiler-instrumented plain access of library and client '
+                   'code incl. result storage, intrusive links, coroutine frames, vptr updates; operator delete = write to the block) '
+                   'evaluated on every schedule explored by every explorer harness in the mc-hb variant: handoff (payload written before '
+                   'Set, read after continuation / Get / Wait / Ready()==true), shared, strand and pool (plain fields written by consecutive '
+                   'jobs), when_all, when_any, timed_wait, coro_await (co_await resumption), coro_mutex and coro_shared_mutex (plain data in '
+                   'consecutive critical sections), wait_group, at their quick / thorough bounds',
+        budget=dict(quick=420, thorough=3000),
+        runs=[mc('handoff', 'mc-hb', quick=dict(P=99), thorough=dict(P=99), oracles=HB),
+              mc('shared', 'mc-hb', quick=dict(P=2, S=1, cells='set=value'), thorough=dict(P=3, S=1), oracles=HB),
+              mc('strand', 'mc-hb', quick=dict(P=2, S=1), thorough=dict(P=3, S=1), oracles=HB),
+              mc('pool', 'mc-hb', quick=dict(P=2), thorough=dict(P=3), oracles=HB),
+              mc('when_all', 'mc-hb', quick=dict(P=2, cells='pat=(VV|EV|XE|VVV|EVV)'), thorough=dict(P=3), oracles=HB),
+              mc('when_any', 'mc-hb', quick=dict(P=2, cells='pat=(VV|EV|XE|VE|EE|VVV|EVV)'), thorough=dict(P=3), oracles=HB),
+              mc('timed_wait', 'mc-hb', quick=dict(P=2, T=1), thorough=dict(P=3, T=1), oracles=HB),
+              mc('coro_await', 'mc-hb', quick=dict(P=3, S=1), thorough=dict(P=99, S=1), oracles=HB),
+              mc('coro_mutex', 'mc-hb', quick=dict(P=3, S=1, cells='exe=(inline|pool1)'), thorough=dict(P=99, S=1), oracles=HB),
+              mc('coro_shared_mutex', 'mc-hb', quick=dict(P=3, S=1, cells='exe=(inline|pool1)'), thorough=dict(P=99, S=1), oracles=HB),
+              mc('wait_group', 'mc-hb', quick=dict(P=3, S=1, T=1), thorough=dict(P=99, S=1, T=1), oracles=HB)],
+        assumptions=['only sequentially consistent executions are enumerated: a defect that needs a stale value of a relaxed atomic to change '
+                     'control flow WITHOUT leaving a pair of plain accesses unordered is out of reach (needs an axiomatic memory-model checker, not installed)',
+                     'seq_cst is treated as acq_rel; FIBER instantiation of the library sources (production code path: no YACLIB_LOG_DEBUG, '
+                     'YACLIB_TSAN undefined so AtomicCounter::SubEqual uses its shipped fence path)',
+                     'bounds of the individual harnesses'],
+        technique='model checking: happens-before race detection on every exhaustively enumerated schedule',
     ),
     'C05': dict(
         title='Executors: every job is Called xor Dropped, and steps run where they were told',
